@@ -135,7 +135,19 @@ impl<'a> Runner<'a> {
                 let msg = if let Some(s) = e.downcast_ref::<String>() { s.clone() } else if let Some(s) = e.downcast_ref::<&str>() { s.to_string() } else { "panic".into() };
                 self.dead = true;
                 self.out.eval("C10");
-                self.fail(&["C10"], "operation within its contract panicked", "no panic", &msg);
+                // no result was produced: the property that governs this operation's result is violated too
+                let mut props: Vec<&str> = vec!["C10"];
+                match (self.coll.as_str(), op.name.as_str()) {
+                    ("key", "export") => { props.push("C07"); props.push("C19"); }
+                    ("key", "get") => props.push("C06"),
+                    ("key", _) => props.push("C01"),
+                    ("map", "fil") | ("map", "filby") | ("set", "fil") | ("set", "filby") | (_, "validx") | (_, "setidx") | (_, "delidx") if !self.is_list => props.push("C08"),
+                    ("set", "after") | ("set", "before") => props.push("C09"),
+                    ("map", _) => props.push("C04"),
+                    ("set", _) => props.push("C05"),
+                    _ => props.push("C13"),
+                }
+                self.fail(&props, "operation within its contract panicked", "no panic", &msg);
                 format!("PANIC")
             }
         };
